@@ -19,7 +19,7 @@ ASSUMPTIONS = ["equality is type-aware deep equality (bool != int, date != Times
 COMPONENTS = {"real": ["twosigma.memento runner, codecs, exception replay, storage backends, memory cache", "tmpfs", "fork lifetimes"],
               "stub": ["scripted function bodies (values come from a table through the builtins side channel)", "uuid4, clock"]}
 REACH = ["first_calls", "repeat_calls", "served_after_restart", "served_after_evict", "exceptions_replayed", "forgets",
-         "nonmemoized_raised", "mementos_checked", "partition_values"]
+         "nonmemoized_raised", "mementos_checked", "partition_values", "duplicate_batches"]
 
 PROGRAM = '''
 import twosigma.memento as m
@@ -84,7 +84,9 @@ def gen_case(seed):
     for _ in range(rng.randrange(3, 31)):
         f, x = keys[rng.randrange(len(keys))] if rng.random() < 0.85 else (rng.randrange(NFN), rng.randrange(NX))
         r = rng.random()
-        if r < 0.55:
+        if r < 0.05:
+            ops.append(["batch2", f, x])      # one batch naming the same call twice
+        elif r < 0.55:
             ops.append(["call", f, x, rng.choice(["normal", "normal", "normal", "ignore", "force_local"])])
         elif r < 0.65:
             ops.append(["forget", f, x])
@@ -181,6 +183,25 @@ def _segment(root, case, ops, ledger, first_index):
                         carried = msg in str(e) or any(msg in str(a) for a in getattr(e, "args", ())) or msg in str(getattr(e, "message", ""))
                         rec["out"] = ["raised", type(e).__name__, type(e).__module__, carried, isinstance(e, MementoException),
                                       str(e)[:160] if "exc" not in spec else None]
+                elif k == "batch2":
+                    fn = getattr(mod, "v%d" % op[1])
+                    spec = case["specs"]["%d,%d" % (op[1], op[2])]
+                    side.take()
+                    res = fn.call_batch([{"x": op[2]}, {"x": op[2]}], raise_first_exception=False)
+                    rec["runs"] = len(side.take())
+                    outs = []
+                    msg = "boom v%d %d" % (op[1], op[2])
+                    for r in res:
+                        if isinstance(r, BaseException):
+                            outs.append(["raised", type(r).__name__, msg in str(r) or any(msg in str(a) for a in getattr(r, "args", ()))])
+                        elif "exc" in spec:
+                            outs.append(["returned-instead-of-raising", values.summary(r)])
+                        else:
+                            try:
+                                outs.append(["value", values.deep_equal(r, build_value(spec))])
+                            except Exception as e:  # noqa
+                                outs.append(["value", False, world.describe_exc(e)])
+                    rec["out"] = ["batch", outs]
                 elif k == "forget":
                     getattr(mod, "v%d" % op[1]).forget(op[2])
                 elif k == "forget_all":
@@ -259,6 +280,31 @@ def execute(case):
                     bad("operation-raised", {"op": op[0], "exc": rec["op_raised"][0]}, rec)
                     break
                 k = op[0]
+                if k == "batch2":
+                    key = (op[1], op[2])
+                    spec = case["specs"]["%d,%d" % key]
+                    was = memo.get(key, False)
+                    kindname = spec.get("kind") or ("nest:" + spec["as"] if "nest" in spec else "exc:" + spec["exc"])
+                    feats = {"value": kindname.split("-")[0] if "kind" in spec else kindname, "state": "memoized" if was else "first", "op": "batch"}
+                    outs = rec["out"][1]
+                    bump("duplicate_batches")
+                    nomemo = spec.get("exc") == "NoMemo"
+                    want = 2 if nomemo else (0 if was else 1)
+                    if rec["runs"] != want:
+                        bad("body-run-count", feats, rec)
+                        break
+                    if len(outs) != 2 or any(o[0] != ("raised" if "exc" in spec else "value") for o in outs):
+                        bad("batch-slot-outcome-differs", feats, rec)
+                        break
+                    if "exc" in spec and not all(o[2] for o in outs):
+                        bad("exception-message-lost", feats, rec)
+                        break
+                    if "exc" not in spec and not all(o[1] for o in outs):
+                        bad("returned-value-differs", feats, rec)
+                        break
+                    if not nomemo:
+                        memo[key] = True
+                    continue
                 if k == "call":
                     key = (op[1], op[2])
                     spec = case["specs"]["%d,%d" % key]
